@@ -10,18 +10,26 @@ import (
 	"strings"
 )
 
-type DB struct {
-	id        int
-	name      string
+// Store is the database file (or in-memory database): committed state and the
+// single writer lock. DB is one *sql.DB handle (connection pool) on a store.
+type Store struct {
 	committed *DBState
 	txn       *Txn
+	commits   int // number of times the committed state was replaced
+	path      string
+}
+
+type DB struct {
+	*Store
+	id        int
+	name      string
 	closed    bool
 	maxConns  int
 	openRows  int
 	inMemory  bool
 	stmtCount int
 	faults    bool // fault injection enabled (C10/C20 harnesses)
-	commits   int  // number of times the committed state was replaced
+	openErr   bool // the file could not be opened (every use fails)
 }
 
 type Txn struct {
@@ -285,6 +293,9 @@ func (e *Exec) poolAccess(th *Thread, db *DB, write bool) (st *DBState, blocked 
 	if db.closed {
 		return nil, false, e.newError("closed", "sql: database is closed")
 	}
+	if db.openErr {
+		return nil, false, e.newError("sqlite", "unable to open database file")
+	}
 	inUse := db.openRows
 	if db.txn != nil && !db.txn.done {
 		inUse++
@@ -327,7 +338,12 @@ func (e *Exec) execStmts(st *DBState, sql string, params map[string]SQLVal) (exe
 			if _, exists := st.tables[td.name]; exists {
 				return last, e.newError("sqlite", "table already exists")
 			}
-			st.tables[td.name] = &Table{def: td}
+			t := &Table{def: td}
+			spare := map[string]int{"bucket": 1, "collections": 3, "documents": 12, "designdocs": 2, "views": 2, "mapped": 2}[td.name]
+			for i := 0; i < spare; i++ {
+				t.rows = append(t.rows, e.absentRow(td))
+			}
+			st.tables[td.name] = t
 		case *CreateIndexStmt:
 		case *PragmaStmt:
 			if x.set != nil {
